@@ -2444,7 +2444,10 @@ bool XMLUri::processAuthority( const XMLCh* const authSpec
                   break;
                 }
 
-                port = (port * 10) + (int) (portStr[i] - chDigit_0);
+                // keep an absurdly long digit string from overflowing the int
+                // (signed overflow is undefined); any value this large stays large
+                if (port < 100000000)
+                    port = (port * 10) + (int) (portStr[i] - chDigit_0);
             }
         }
     }
